@@ -1,6 +1,7 @@
 package main
 
 import (
+	"context"
 	"errors"
 	"fmt"
 	"io/fs"
@@ -11,6 +12,8 @@ import (
 	"syscall"
 	"time"
 	"unsafe"
+
+	"github.com/vimeo/dials"
 )
 
 // ---- the config corpus (DESIGN §2.6) ----
@@ -48,6 +51,7 @@ type CfgCore struct {
 	MM                             map[string][]string       // slices inside a map
 	MA                             map[string]map[string]int // maps inside a map; a source may place one inner map under several keys
 	KP                             map[KeyP]int              // keys that hold a pointer: the pointee is memory a holder can write to
+	Sh                             Shadow                    // a named type that shares its qualified name with a scalars-only type declared inside a function (shadowConfig)
 	Pairs                          [][2]*int                 // arrays (holding pointers) inside a slice
 	Arr                            [2]string                 // an array leaf
 	When                           time.Time                 // a struct that unmarshals from text
@@ -341,6 +345,7 @@ type Part struct {
 	MM        map[string][]string `json:"mm,omitempty"`
 	MA        map[string]int      `json:"ma,omitempty"` // key -> inner map number; equal numbers are one and the same map object
 	KP        []string            `json:"kp,omitempty"` // names of the keys of the pointer-keyed map
+	Sh        []string            `json:"sh,omitempty"` // tags of the Shadow leaf
 	Pairs     [][2]int            `json:"pairs,omitempty"`
 	Arr       []string            `json:"arr,omitempty"`  // two elements
 	When      *string             `json:"when,omitempty"` // RFC 3339
@@ -390,6 +395,42 @@ func cloneM(m map[string]int) map[string]int {
 		out[k] = v
 	}
 	return out
+}
+
+// Shadow: reflect reports this type as "main.Shadow" - and so it does the
+// type of the same name that shadowConfig declares inside a function, which
+// has scalar fields only. Two distinct types, one qualified name.
+type Shadow struct {
+	Host string
+	Tags []string
+	W    map[string]int
+}
+
+func buildSh(tags []string) Shadow {
+	sh := Shadow{Host: "sh", Tags: cloneStrs(tags), W: map[string]int{}}
+	for i, t := range tags {
+		sh.W[t] = i
+	}
+	return sh
+}
+
+// shadowConfig is "an earlier component of the process": it loads a small
+// config of its own through dials, whose type has a field of a function-local
+// type named Shadow with scalar fields only. Called once per worker process,
+// before the first run.
+func shadowConfig() {
+	type Shadow struct {
+		Host string
+		Port int
+	}
+	type earlier struct {
+		Up Shadow
+		N  int
+	}
+	d, err := dials.Config(context.Background(), &earlier{Up: Shadow{Host: "h", Port: 1}, N: 1})
+	if err != nil || d.View().Up.Port != 1 {
+		panic(fmt.Sprint("harness: the earlier component's config failed: ", err))
+	}
 }
 
 // KeyP is a comparable struct that holds a pointer: as a map key it is
@@ -521,6 +562,15 @@ func fillValue(e reflect.Value, p *Part, owner int) {
 	}
 	if p.KP != nil {
 		fld("KP").Set(reflect.ValueOf(buildKP(p.KP)))
+	}
+	if p.Sh != nil {
+		// (pointerified: a pointer to an unnamed struct with a *string Host)
+		f, sh := fld("Sh"), buildSh(p.Sh)
+		ps := reflect.New(f.Type().Elem())
+		setPtr(ps.Elem().FieldByName("Host"), sh.Host)
+		ps.Elem().FieldByName("Tags").Set(reflect.ValueOf(sh.Tags))
+		ps.Elem().FieldByName("W").Set(reflect.ValueOf(sh.W))
+		f.Set(ps)
 	}
 	if p.Pairs != nil {
 		fld("Pairs").Set(reflect.ValueOf(buildPairs(p.Pairs)))
@@ -664,6 +714,9 @@ func defaultsFrom(p *Part) *CfgCore {
 	}
 	if p.KP != nil {
 		c.KP = buildKP(p.KP)
+	}
+	if p.Sh != nil {
+		c.Sh = buildSh(p.Sh)
 	}
 	if p.Pairs != nil {
 		c.Pairs = buildPairs(p.Pairs)
